@@ -5,10 +5,54 @@ mod gen;
 mod model;
 mod procsim;
 mod sched;
+mod store;
 mod simprog;
 mod util;
 
 use framework::{BatchPlan, Tier};
+
+/// SCHED_ONLY=lo,lo-ref restricts the command kinds (debug / focused sweeps)
+fn c11_workload() -> sched::SchedWorkload {
+    let only: Option<Vec<&'static str>> = std::env::var("SCHED_ONLY").ok().map(|s| {
+        s.split(',').map(|x| &*Box::leak(x.to_string().into_boxed_str())).collect()
+    });
+    sched::SchedWorkload { only }
+}
+
+/// run `$body` with `$w` bound to the workload that decides property `$id`
+macro_rules! with_workload {
+    ($id:expr, $w:ident => $body:expr, $else:expr) => {
+        match $id {
+            "C11" => {
+                let $w = c11_workload();
+                $body
+            }
+            "C06" | "C07" | "C08" | "C10" | "C13" | "C14" => {
+                let focus: &'static str = match $id {
+                    "C06" => "C06",
+                    "C07" => "C07",
+                    "C08" => "C08",
+                    "C10" => "C10",
+                    "C13" => "C13",
+                    _ => "C14",
+                };
+                let $w = store::StoreWorkload { focus };
+                $body
+            }
+            _ => $else,
+        }
+    };
+}
+
+/// (quick runs, thorough runs, quick wall cap s, thorough wall cap s)
+fn plan_for(id: &str) -> (u64, u64, u64, u64) {
+    match id {
+        "C11" => (600, 40000, 300, 2400),
+        "C06" | "C07" | "C08" | "C13" | "C14" => (1500, 80000, 300, 2400),
+        "C10" => (1000, 50000, 300, 2400),
+        _ => (100, 1000, 300, 2400),
+    }
+}
 
 fn usage() -> ! {
     eprintln!("usage: skasim check <ID> quick|thorough | replay <file> | selftest <name> | exec ...");
@@ -33,19 +77,17 @@ fn main() {
                 runs: runs_env.unwrap_or(if q { quick } else { thorough }),
                 wall_cap_s: if q { cap_q } else { cap_t },
             };
-            match id.as_str() {
-                "C11" => {
-                    // SCHED_ONLY=lo,lo-ref restricts the command kinds (debug / focused sweeps)
-                    let only: Option<Vec<&'static str>> = std::env::var("SCHED_ONLY").ok().map(|s| {
-                        s.split(',').map(|x| &*Box::leak(x.to_string().into_boxed_str())).collect()
-                    });
-                    framework::check(&sched::SchedWorkload { only }, tier, plan(600, 40000, 300, 2400))
-                }
-                _ => {
-                    eprintln!("no check for {id}");
-                    2
-                }
-            }
+            let (pq, pt, cq, ct) = plan_for(&id);
+            with_workload!(id.as_str(), w => framework::check(&w, tier, plan(pq, pt, cq, ct)), {
+                eprintln!("no check for {id}");
+                2
+            })
+        }
+        Some("worker") => {
+            // skasim worker ID TIER SEED START STRIDE RUNS CAP   (internal: one batch worker process)
+            let tier = if args[3] == "thorough" { Tier::Thorough } else { Tier::Quick };
+            let n = |i: usize| -> u64 { args[i].parse().unwrap() };
+            with_workload!(args[2].as_str(), w => framework::worker_main(&w, tier, n(4), n(5), n(6), n(7), n(8)), 2)
         }
         Some("replay") => {
             let path = args.get(2).cloned().unwrap_or_else(|| usage());
@@ -58,13 +100,11 @@ fn main() {
                 std::process::exit(2)
             });
             v["__path"] = serde_json::Value::String(path.clone());
-            match v["workload"].as_str().unwrap_or("") {
-                "sched" => framework::replay(&sched::SchedWorkload { only: None }, &v),
-                w => {
-                    eprintln!("HARNESS-ERROR unknown workload {w}");
-                    2
-                }
-            }
+            let prop = v["property"].as_str().unwrap_or("").to_string();
+            with_workload!(prop.as_str(), w => framework::replay(&w, &v), {
+                eprintln!("HARNESS-ERROR unknown property {prop}");
+                2
+            })
         }
         Some("exec") => {
             // skasim exec SEED CORES POLICY HOOKS -- ska args   (debug aid; runs in the cwd)
